@@ -16,6 +16,7 @@ def run(rep, tier):
     kernels.run_generators(rep, ["apply_operator_vector", "apply_operator_matrix"])
     from vf.pyvc import tensors
     tensors.run_tensor_contracts(rep, ["C06"])
+    kernels.run_delegation(rep, ['apply_kraus'])
     from vf import lemmas
     lemmas.lemma_obligations(rep, ["kraus_trace", "complete_set_preserves_trace"])
     B.run_b(rep, morecells.kraus_cells(tier, common.seed()), ["C06"], tier=tier)
